@@ -163,7 +163,7 @@ func TestVerifC12(t *testing.T) {
 			// the same batch arriving JSON-encoded (Temporal's serializer reads proto3 and JSON alike)
 			pads = append(pads, "json-encoded-blob", "skippable-event-before+json-encoded-blob")
 			// and next to a batch with nothing to map (only repeated blob fields get the second batch)
-			pads = append(pads, "unmatched-batch-before", "unmatched-batch-after")
+			pads = append(pads, "unmatched-batch-before", "unmatched-batch-after", "empty-batch-before")
 		}
 		for _, pad := range pads {
 			msg := vfBuildAtPadded(j.root, j.path, value, pad)
